@@ -413,15 +413,16 @@ def apply_fn(d, log, fnmap, out_lineno):
     body = rule_r3_macros(body, log, where, name)
     if 'R4' not in d.norules:
         body = rule_r4_any_all(body, log, where)
-    for old, new, count in d.substs:
-        c = len(re.findall(anchor_regex(old), body))
-        if c != count:
-            raise Undecided('lost anchor: subst "%s" in %s matches %d sites, expected %d' % (old, d.spec, c, count))
-        body = re.sub(anchor_regex(old), lambda _m: new, body)
-        log.hit('R-local.subst', c, '%s: "%s" => "%s"' % (where, old, new))
     # collect insertions on the (rewritten) body, all computed against the same text
     bk = rs.code_mask(body)
-    edits = []  # (pos, text)  -- or (start,end,text) replacements
+    edits = []  # (start, end, text): insertion when start == end, else replacement
+    for old, new, count in d.substs:
+        hits = [(m.start(), m.end()) for m in re.finditer(anchor_regex(old), body) if bk[m.start()] == 'c']
+        if len(hits) != count:
+            raise Undecided('lost anchor: subst "%s" in %s matches %d sites, expected %d' % (old, d.spec, len(hits), count))
+        for a, b in hits:
+            edits.append((a, b, new))
+        log.hit('R-local.subst', len(hits), '%s: "%s" => "%s"' % (where, old, new))
     loops = rs.find_loops(body, bk, 1, len(body) - 1)
     for n, (itname, lines) in d.loops.items():
         if n < 1 or n > len(loops):
@@ -516,6 +517,23 @@ def apply_item(spec, opts, log):
     if opts.get('fields') == 'pub':
         # make every named field pub (single file: visibility is irrelevant, but spec fns need it)
         text = re.sub(r'(?m)^(\s+)(?!pub\b)(\w+\s*:)', r'\1pub \2', text)
+        mt = re.match(r'(\s*(?:pub\s+)?struct\s+\w+\s*(?:<[^>]*>)?\s*)\((.*)\)\s*;\s*$', text, re.S)
+        if mt:
+            parts, depth, cur = [], 0, ''
+            for ch in mt.group(2):
+                if ch in '<([':
+                    depth += 1
+                elif ch in '>)]':
+                    depth -= 1
+                if ch == ',' and depth == 0:
+                    parts.append(cur)
+                    cur = ''
+                else:
+                    cur += ch
+            if cur.strip():
+                parts.append(cur)
+            parts = [x.strip() if x.strip().startswith('pub') else 'pub ' + x.strip() for x in parts]
+            text = mt.group(1) + '(' + ', '.join(parts) + ');'
     if 'pre' in opts:
         attrs = attrs + opts['pre'].replace('~', ' ') + '\n'
     first_line = src.count('\n', 0, it.sig_start) + 1
@@ -708,6 +726,17 @@ def expand(template_path, out_path, extra_tail=''):
         if cmd.startswith('item '):
             spec, opts = parse_opts(cmd[5:])
             out.append(apply_item(spec, opts, log))
+            i += 1
+            continue
+        if cmd.startswith('logos-shape '):
+            import logos_shape
+            file, src, kind, it = get_item(cmd[len('logos-shape '):].strip())
+            try:
+                text, summ = logos_shape.gen_shape(it.attrs(), it.text(), it.name)
+            except logos_shape.Unsupported as e:
+                raise Undecided('lexer pattern outside the analysed regex subset: %s' % e)
+            log.taken.append({'item': cmd[len('logos-shape '):].strip(), 'kind': 'logos-shape', 'patterns': summ})
+            out.append(text)
             i += 1
             continue
         if cmd.startswith('trait '):
